@@ -255,7 +255,8 @@ struct Exec {
             char nm[NC_MAX_NAME + 1]; MPI_Offset len; ncmpi_inq_dim(ncid, i, nm, &len);
             if (f.dims[i].name != nm) bad("dimension " + std::to_string(i) + " name '" + nm + "' != model '" + f.dims[i].name + "'");
             long long want = f.dims[i].len == 0 ? numrecs : f.dims[i].len;
-            if (len != want) bad("dimension '" + f.dims[i].name + "' length " + std::to_string(len) + " != model " + std::to_string(want));
+            if (f.dims[i].len == 0 && r < (int)op.exp_numrecs_lo.size() && r < (int)op.exp_numrecs_hi.size()) { if (len < op.exp_numrecs_lo[r] || len > op.exp_numrecs_hi[r]) bad("unlimited dimension '" + f.dims[i].name + "' length " + std::to_string(len) + " outside the model's bounds [" + std::to_string(op.exp_numrecs_lo[r]) + "," + std::to_string(op.exp_numrecs_hi[r]) + "]"); }
+            else if (len != want) bad("dimension '" + f.dims[i].name + "' length " + std::to_string(len) + " != model " + std::to_string(want));
             int id = -1; ncmpi_inq_dimid(ncid, f.dims[i].name.c_str(), &id); if (id != i) bad("inq_dimid('" + f.dims[i].name + "') = " + std::to_string(id) + " != " + std::to_string(i));
         }
         auto chk_atts = [&](int varid, const std::vector<MAtt> &l, const std::string &ctx) {
@@ -476,7 +477,7 @@ struct Exec {
                     fail("numrecs", opi, "reports " + std::to_string((long long)len) + " records after the call, model expects " + (op.exp_numrecs_lo[r] == op.exp_numrecs_hi[r] ? std::to_string(op.exp_numrecs_lo[r]) : "[" + std::to_string(op.exp_numrecs_lo[r]) + ".." + std::to_string(op.exp_numrecs_hi[r]) + "]"));
             }
         }
-        if (!op.exp_nreqs.empty() && r < (int)op.exp_nreqs.size()) {
+        if (!op.exp_nreqs.empty() && r < (int)op.exp_nreqs.size() && op.exp_nreqs[r] >= 0) {
             int n = -1; if (ncmpi_inq_nreqs(ncid, &n) == NC_NOERR && n != op.exp_nreqs[r]) fail("nreqs", opi, "ncmpi_inq_nreqs reports " + std::to_string(n) + " pending requests, model has " + std::to_string(op.exp_nreqs[r]));
             if (c.o.check_usage && op.exp_usage[r] >= 0) { MPI_Offset u = -1; if (ncmpi_inq_buffer_usage(ncid, &u) == NC_NOERR && u != op.exp_usage[r]) fail("abuf-usage", opi, "ncmpi_inq_buffer_usage reports " + std::to_string((long long)u) + " bytes, pending buffered puts hold " + std::to_string(op.exp_usage[r]) + ((r < (int)op.exp_usage_tail.size() && u == op.exp_usage_tail[r]) ? " (tail-only-reclaim: the excess is exactly the space of completed/cancelled entries allocated before a still pending one)" : "")); }
         }
@@ -657,7 +658,7 @@ void Exec::check_files(Op &op, int opi) {
         };
         cmp_atts(d.gatts, f.gatts, "global");
         if (d.vars.size() != f.vars.size()) fail("file-schema", opi, f.path + ": " + std::to_string(d.vars.size()) + " variables in file, model has " + std::to_string(f.vars.size()));
-        bool dirty = false; for (auto &rk : f.ranks) if (rk.numrecs_dirty) dirty = true;
+        bool dirty = false; for (auto &rk : f.ranks) { if (rk.numrecs_dirty) dirty = true; if (f.bb) for (auto &q : rk.reqs) if (q.live && q.kind != K_IGET) dirty = true; }
         if (!dirty && d.numrecs != f.numrecs) fail("file-numrecs", opi, f.path + ": header numrecs " + std::to_string(d.numrecs) + " != model " + std::to_string(f.numrecs));
         for (size_t i = 0; i < f.vars.size(); i++) {
             const MVar &mv = f.vars[i]; const cdf::Var &dv = d.vars[i];
@@ -668,6 +669,7 @@ void Exec::check_files(Op &op, int opi) {
             for (size_t e = 0; e < mv.cells.size(); e++) {
                 const Cell &cl = mv.cells[e];
                 if (cl.st != CS_VALUE && cl.st != CS_FILL) continue;
+                if (cl.bb || cl.bbpend) continue;   // burst-buffer fragment: may still sit in a log
                 long long iv; double dd; bool isf; bool inside = cdf::read_elem(img, d, dv, (long long)e, iv, dd, isf);
                 if (cl.st == CS_VALUE) {
                     if (!inside || dd != (double)cl.v || iv != cl.v) fail("file-data", opi, f.path + ": variable '" + mv.name + "' element " + std::to_string(e) + " holds " + (isf ? std::to_string(dd) : std::to_string(iv)) + (inside ? "" : " (beyond EOF)") + " in the file, model has " + std::to_string(cl.v));
